@@ -18,8 +18,8 @@ HIST_ASSUME = ["the Lean model of BackupFS (Model/BackupFS.lean) and of Linux+Go
 PROPS = {
     "C05": {
         "theorems": ["prefix_confines", "symlink_target_confined_partial", "symlink_target_confined_full_fails", "rejected_is_escape", "escaping_name_rejected"],
-        "streams": [{"name": "layers"}],
-        "assumptions": LAYER_ASSUME + ["OS-level confinement after symlinks already inside the prefix are moved (Rename) is not covered by a theorem"],
+        "streams": [{"name": "layers"}, {"name": "osmodel", "quick": ["-n", "400"], "thorough": ["-n", "6000"]}],
+        "assumptions": LAYER_ASSUME + ["OS level: the osmodel stream in confine mode runs histories through a real PrefixFS(OSFS) over a temp directory whose initial tree holds no symlink (every link is created through the PrefixFS), with sentinel files in the directories above the prefix; escapes through relative links combined with symlinked directories or Rename are the open finding K-prefix-lexical-links"],
     },
     "C06": {
         "theorems": ["isHidden_complete", "isHidden_complete_comparable", "hidden_never_delegated", "hidden_refused", "rename_refused", "symlink_refused", "refusal_classes"],
@@ -32,7 +32,7 @@ PROPS = {
         "assumptions": LAYER_ASSUME,
     },
     "C15": {
-        "theorems": ["isHidden_sound", "visible_of_outside", "nonhidden_delegates", "arguments_unchanged"],
+        "theorems": ["isHidden_sound", "visible_of_outside", "nonhidden_delegates", "arguments_unchanged", "removeAll_transparent_linkfree_partial"],
         "streams": [{"name": "layers"}, {"name": "osmodel", "quick": ["-n", "300"], "thorough": ["-n", "5000"]}],
         "assumptions": LAYER_ASSUME,
     },
@@ -50,12 +50,12 @@ PROPS = {
                         "sort.Sort returns a permutation ordered by Less (T19.4 then makes the algorithm irrelevant)"],
     },
     "C01": {
-        "theorems": ["rollback_touches_only_tracked", "removal_order", "restore_order", "nothing_tracked_after"],
+        "theorems": ["rollback_touches_only_tracked", "removal_order", "restore_order", "nothing_tracked_after", "rollback_restores_linkfree_partial", "invariant_after_history", "rollback_returns_nil_linkfree_partial", "rollback_restores_symlink_leaves_partial"],
         "streams": [{"name": "hist", "quick": ["-n", "900"], "thorough": ["-n", "8000"]}],
         "assumptions": HIST_ASSUME,
     },
     "C02": {
-        "theorems": ["copy_completes_before_base_is_touched", "no_base_call_without_backup", "first_write_wins", "tracked_is_not_copied_again", "copy_records_nothing"],
+        "theorems": ["copy_completes_before_base_is_touched", "no_base_call_without_backup", "first_write_wins", "tracked_is_not_copied_again", "copy_records_nothing", "crashed_frozen", "originals_recoverable_at_every_crash_point_linkfree_partial"],
         "streams": [{"name": "hist", "quick": ["-n", "300"], "thorough": ["-n", "4000"]}],
         "assumptions": HIST_ASSUME,
     },
@@ -70,7 +70,7 @@ PROPS = {
         "assumptions": HIST_ASSUME + LAYER_ASSUME,
     },
     "C07": {
-        "theorems": ["rollback_total", "infos_reset", "second_rollback_noop", "next_transaction_fresh"],
+        "theorems": ["rollback_total", "infos_reset", "second_rollback_noop", "next_transaction_fresh", "rollback_returns_nil_linkfree_partial", "backup_clean_after_rollback_linkfree_partial", "backup_empty_after_rollback_linkfree_partial", "backup_invariant_after_history"],
         "streams": [{"name": "hist", "quick": ["-n", "300"], "thorough": ["-n", "5000"]}],
         "assumptions": HIST_ASSUME,
     },
@@ -80,32 +80,32 @@ PROPS = {
         "assumptions": HIST_ASSUME + ["encoding/json round-trips the fInfo struct (integers and one string): exercised with the real Marshal/Unmarshal, not proved"],
     },
     "C13": {
-        "theorems": ["rollback_footprint", "cleanup_uses_remove_only"],
+        "theorems": ["rollback_footprint", "cleanup_uses_remove_only", "rollback_leaves_unrelated_entries_alone", "foreign_entry_survives", "unnamed_file_keeps_content", "foreign_backup_content_survives"],
         "streams": [{"name": "hist", "quick": ["-n", "300"], "thorough": ["-n", "5000"]}],
         "assumptions": HIST_ASSUME,
     },
     "C16": {
-        "theorems": ["resolve_reads_only", "resolve_keeps_tracking", "chain_ends_in_path", "resolve_identity_without_links_partial", "resolve_empty"],
+        "theorems": ["resolve_reads_only", "resolve_keeps_tracking", "chain_ends_in_path", "resolve_identity_without_links_partial", "resolve_empty", "resolve_exact_linkfree_partial"],
         "streams": [{"name": "hist", "quick": ["-n", "400"], "thorough": ["-n", "6000"]}],
         "assumptions": HIST_ASSUME,
     },
     "C17": {
-        "theorems": ["forceBackup_shape", "forceBackup_untracked", "forceBackup_base_readonly_partial"],
+        "theorems": ["forceBackup_shape", "forceBackup_untracked", "forceBackup_base_readonly_partial", "forceBackup_rebaselines_linkfree_partial", "forceBackup_rebaselines_after_faults_linkfree_partial", "forceBackup_rebaselines_many_linkfree_partial"],
         "streams": [{"name": "hist", "quick": ["-n", "300"], "thorough": ["-n", "5000"]}],
         "assumptions": HIST_ASSUME,
     },
     "C08": {
-        "theorems": ["backup_never_mutates_base", "failed_backup_blocks", "failed_backup_blocks_rename", "copy_leaves_tracking_untouched"],
+        "theorems": ["backup_never_mutates_base", "failed_backup_blocks", "failed_backup_blocks_rename", "copy_leaves_tracking_untouched", "later_rollback_still_restores_linkfree_partial"],
         "streams": [{"name": "faults", "quick": ["-n", "40"], "thorough": ["-n", "400"]}],
         "assumptions": HIST_ASSUME + ["faults are injected by a wrapper around the backup filesystem that returns EIO without forwarding the call; the j-th occurrence of a call signature is addressed, so reordered read-only calls do not shift the plan"],
     },
     "C09": {
-        "theorems": ["rollback_total", "success_means_every_step_succeeded", "restoreFile_propagates_open_error", "restoreSymlink_propagates_lstat_error"],
+        "theorems": ["rollback_total", "success_means_every_step_succeeded", "restoreFile_propagates_open_error", "restoreSymlink_propagates_lstat_error", "success_means_restored_linkfree_partial", "unrestored_means_error_linkfree_partial"],
         "streams": [{"name": "faults", "quick": ["-n", "40"], "thorough": ["-n", "400"]}],
         "assumptions": HIST_ASSUME + ["faults are injected on both filesystems incl. handle primitives (Read/Write/Close/Stat)"],
     },
     "C11": {
-        "theorems": ["listing_stream", "eof_only_when_exhausted", "drain_returns_all", "listed_is_outside", "rename_ancestor_refused"],
+        "theorems": ["listing_stream", "eof_only_when_exhausted", "drain_returns_all", "listed_is_outside", "rename_ancestor_refused", "rename_onto_ancestor_refused", "removeAll_spares_hidden", "removeAll_removes_the_rest", "removeAll_succeeds"],
         "streams": [{"name": "listing"}, {"name": "osmodel", "quick": ["-n", "300"], "thorough": ["-n", "5000"]}, {"name": "layers", "quick": ["-n", "12000"]}],
         "assumptions": LAYER_ASSUME + ["the directory stream of the underlying os.File returns every entry once, in a fixed order (taken from a plain Readdirnames(-1) of the same directory)"],
     },
